@@ -2,6 +2,7 @@
 
 import collections
 import collections.abc as cabc
+import contextlib
 import os
 import re
 import sys
@@ -299,8 +300,20 @@ class JsonHistoryGC(threading.Thread):
                     hist = lj.load()
                     lj.close()
                     hist["locked"] = False
-                    with open(f, "w", newline="\n", encoding="utf-8") as fp:
-                        xlj.ljdump(hist, fp, sort_keys=True)
+                    # Atomic write (same as JsonHistoryFlusher.dump): a crash
+                    # or a failing write in the middle of an in-place rewrite
+                    # would leave the history file empty or truncated.
+                    fd, tmpname = tempfile.mkstemp(
+                        dir=os.path.dirname(f), suffix=".json.tmp"
+                    )
+                    try:
+                        with os.fdopen(fd, "w", newline="\n", encoding="utf-8") as fp:
+                            xlj.ljdump(hist, fp, sort_keys=True)
+                        os.replace(tmpname, f)
+                    except BaseException:
+                        with contextlib.suppress(OSError):
+                            os.remove(tmpname)
+                        raise
                     lj = xlj.LazyJSON(f, reopen=False)
                 if only_unlocked and lj.get("locked", False):
                     continue
